@@ -720,8 +720,9 @@ func checkBatchItem(c Case, f Fn, ps []pt, isInt bool, wants []outv, b *kit.Bt, 
 			if !p.T.Equal(*w.t) {
 				return fmt.Sprintf("point %d time %d, want %d", i, p.T.Unix(), w.t.Unix())
 			}
-			if !tagsSuper(p.Tags, groupTags) {
-				return fmt.Sprintf("point %d tags %s lack the group's tags", i, kit.FmtTags(p.Tags))
+			// a transformation's output belongs to the group: it carries the group's tags, not those of the input point
+			if !tagsEq(p.Tags, groupTags) {
+				return fmt.Sprintf("point %d tags %s, want the group's tags %s", i, kit.FmtTags(p.Tags), kit.FmtTags(groupTags))
 			}
 		}
 		return ""
